@@ -1,4 +1,4 @@
-\* E0: DataStruct.tla, 3 stored + 3 derived attributes (x<-a, y<-a,b, z<-x), 2-d, 3 coordinate kinds; histories to depth 7.
+\* E0: DataStruct.tla, 3 stored + 3 derived attributes (x<-a, y<-a,b, z<-x), 2-d, 3 coordinate kinds; histories to depth 6.
 CONSTANTS
   Main <- c_Main
   Derived <- c_Derived
@@ -6,10 +6,12 @@ CONSTANTS
   NDim = 2
   Coords <- c_Coords
   Labels = {"L1", "L2"}
+  DupIds = {"d1", "d2"}
+  DupOf = {"a", "x", "p1"}
 INIT Init
 NEXT Next
 VIEW view
-CONSTRAINT D7
+CONSTRAINT D6
 INVARIANT Inv_OnePixelPerDim
 INVARIANT Inv_WorldIffCoords
 INVARIANT Inv_UniqueIds
